@@ -650,6 +650,10 @@ def field_names_and_lengths(fixed_cid):
     return result
 
 
+#: Modules imported by :py:func:`import_plugins`.
+_imported_plugin_modules = []
+
+
 def import_plugins(folder_to_scan_for_plugins):
     """
     Import all Python modules found in folder
@@ -677,6 +681,9 @@ def import_plugins(folder_to_scan_for_plugins):
         spec = importlib.util.spec_from_loader(module_name_to_import, loader)
         loaded_module = importlib.util.module_from_spec(spec)
         loader.exec_module(loaded_module)
+        # Keep a reference to the module. Otherwise its classes could be garbage collected any time because
+        # ``__subclasses__()``, which is used to find them, only holds weak references.
+        _imported_plugin_modules.append(loaded_module)
     current_checks = set(checks.AbstractCheck.__subclasses__())  # @UndefinedVariable
     current_field_formats = set(fields.AbstractFieldFormat.__subclasses__())  # @UndefinedVariable
     log_imported_items("fields", base_field_formats, current_field_formats)
